@@ -1,6 +1,7 @@
 package c06
 
 import (
+	"bytes"
 	"context"
 	"fmt"
 	"os"
@@ -105,7 +106,7 @@ type Case struct {
 
 // DeepDoc describes a JSON document that opens Depth frames of one kind (the converters keep fixed-size stacks).
 type DeepDoc struct {
-	Unit  int  `json:"unit"`  // 0 {"a":  1 {"l":[  2 {"m":{"k":  3 [  4 mixed
+	Unit  int  `json:"unit"` // 0 {"a":  1 {"l":[  2 {"m":{"k":  3 [  4 mixed
 	Depth int  `json:"depth"`
 	Close bool `json:"close"` // the frames are closed again (else the document ends at the deepest point)
 }
@@ -264,6 +265,33 @@ func mutateBytes(src []byte, m Mut) []byte {
 	return b
 }
 
+// spareIsNotInput runs f on the input in a buffer of exactly its size and on the same bytes followed, inside the slice's
+// spare capacity, by bytes that continue the message plausibly (the rest of the original message if the input is a
+// truncation of it, else a well-formed tail): what lies behind len(input) is not input, so outcome and output must agree.
+func spareIsNotInput(c *pbt.Ctx, target string, in, orig []byte, f func(b []byte) ([]byte, error)) {
+	c.Step("%s: spare capacity behind the input", target)
+	tail := []byte{0x08, 0x01, 0x0a, 0x02, 0x08, 0x01, 0x00, 0x00, 0x00, 0x02, 0x00, 0x01, 0x01, 0x00, 0x7f, 0x7f}
+	if len(in) < len(orig) && bytes.Equal(in, orig[:len(in)]) {
+		tail = append(append([]byte(nil), orig[len(in):]...), tail...)
+	}
+	exact := append(make([]byte, 0, len(in)), in...)
+	exact = exact[:len(in):len(in)]
+	wide := append(append(make([]byte, 0, len(in)+len(tail)), in...), tail...)[:len(in)]
+	var o1, o2 []byte
+	var e1, e2 error
+	ok := c.Protect(target, func() {
+		o1, e1 = f(exact)
+		o1 = append([]byte(nil), o1...)
+		o2, e2 = f(wide)
+	})
+	if !ok {
+		return
+	}
+	if (e1 == nil) != (e2 == nil) || (e1 == nil && !bytes.Equal(o1, o2)) {
+		c.Fail(target, "reads-spare-capacity", "%s: the result depends on the bytes behind the input (in the slice's spare capacity): exact buffer -> %d bytes, err=%v; with spare capacity -> %d bytes, err=%v", target, len(o1), e1, len(o2), e2)
+	}
+}
+
 // call runs one entry point under the watchdog, the panic guard and the allocation meter.
 func call(c *pbt.Ctx, target string, inLen int, f func()) {
 	c.Step("%s", target)
@@ -370,6 +398,16 @@ func checkThrift(c *pbt.Ctx, cs Case) {
 	call(c, "thrift.UnwrapBinaryMessage", len(in), func() {
 		_, _, _, _, _, _ = thrift.UnwrapBinaryMessage(data)
 	})
+	orig := tm.Encode(cs.V)
+	spareIsNotInput(c, "t2j.Do", in, orig, func(b []byte) ([]byte, error) {
+		cv := t2j.NewBinaryConv(conv.Options{})
+		return cv.Do(ctx, comp.Root, b)
+	})
+	if comp.Root.Type() == thrift.STRUCT {
+		spareIsNotInput(c, "thrift/generic.MarshalTo", in, orig, func(b []byte) ([]byte, error) {
+			return generic.NewValue(comp.Root, b).MarshalTo(comp.Root, &generic.Options{})
+		})
+	}
 	c.NonTrivial()
 	c.Class(fmt.Sprintf("thrift:mut=%d", cs.M.Kind))
 }
@@ -426,6 +464,13 @@ func checkProto(c *pbt.Ctx, cs Case) {
 	call(c, "proto/generic.MarshalTo", len(in), func() {
 		v := pgeneric.NewRootValue(desc, data)
 		_, _ = v.MarshalTo(desc, &pgeneric.Options{})
+	})
+	spareIsNotInput(c, "p2j.Do", in, cs.Msg, func(b []byte) ([]byte, error) {
+		cv := p2j.NewBinaryConv(conv.Options{})
+		return cv.Do(ctx, desc, b)
+	})
+	spareIsNotInput(c, "proto/generic.MarshalTo", in, cs.Msg, func(b []byte) ([]byte, error) {
+		return pgeneric.NewRootValue(desc, b).MarshalTo(desc, &pgeneric.Options{})
 	})
 	c.NonTrivial()
 	c.Class(fmt.Sprintf("proto:mut=%d", cs.M.Kind))
@@ -528,7 +573,7 @@ func genMut(t *rapid.T) Mut {
 
 var Prop = pbt.Register(pbt.Prop[Case]{
 	Name: "TestArbitraryBytes",
-	Rule: "well-formed Thrift messages, Protobuf messages and JSON documents of generated descriptors, then: left intact, truncated at any point, one size/length/count field replaced by 2^31-1 / 2^31 / 2^32-1 / +-1 / large values (Thrift: exact positions from the reference encoder's span table; Protobuf: over-long and maximal varints and lengths around 2^63 where position+length wraps, group/unknown wire types at any position), one type byte replaced, one arbitrary byte replaced, garbage appended, or replaced entirely by random bytes / JSON token soup, or (JSON) a document that opens 1..70000 object/array/map frames against recursive descriptors (depths around 64, 128, 256, 512, 1024, 65536), closed or cut at the deepest point; the bytes are placed flush against an inaccessible page and given to every read-side entry point (skip Go/native, t2j, ReadAnyWithDesc, generic Interface/GetByPath/Load+Marshal/MarshalTo, message envelope parser; p2j, proto ReadAnyWithDesc, proto generic reads; j2t, j2p); each call must return (watchdog), must not panic or fault, must leave its read cursor inside the input and must not allocate more than 512 bytes per input byte + 4 MiB; every case is non-trivial",
+	Rule: "well-formed Thrift messages, Protobuf messages and JSON documents of generated descriptors, then: left intact, truncated at any point, one size/length/count field replaced by 2^31-1 / 2^31 / 2^32-1 / +-1 / large values (Thrift: exact positions from the reference encoder's span table; Protobuf: over-long and maximal varints and lengths around 2^63 where position+length wraps, group/unknown wire types at any position), one type byte replaced, one arbitrary byte replaced, garbage appended, or replaced entirely by random bytes / JSON token soup, or (JSON) a document that opens 1..70000 object/array/map frames against recursive descriptors (depths around 64, 128, 256, 512, 1024, 65536), closed or cut at the deepest point; the bytes are placed flush against an inaccessible page and given to every read-side entry point (skip Go/native, t2j, ReadAnyWithDesc, generic Interface/GetByPath/Load+Marshal/MarshalTo, message envelope parser; p2j, proto ReadAnyWithDesc, proto generic reads; j2t, j2p); each call must return (watchdog), must not panic or fault, must leave its read cursor inside the input and must not allocate more than 512 bytes per input byte + 4 MiB; t2j, p2j and both MarshalTo must give the same outcome whether the slice ends at its capacity or is followed, inside spare capacity, by the rest of the original message; every case is non-trivial",
 	Gen: func(t *rapid.T) Case {
 		cs := Case{Fmt: []string{"thrift", "thrift", "proto", "json"}[rapid.IntRange(0, 3).Draw(t, "format")]}
 		switch cs.Fmt {
